@@ -116,6 +116,18 @@ def _pspecs():
             exhaustive={"quick": True, "thorough": True},
             exhaustive_scope={"quick": "all single-write fault positions x {first run, run after edit, edit reverted} x {cli, build} x {viz off, on}", "thorough": "same + double faults"},
         ),
+        "C19": dict(
+            cases=pcases.cases_c19, groups=["config"], theorems="Typegen.Theorems.C19",
+            trusted_base=[LEAN_TB, HARNESS_TB, PROC_TB,
+                          "modelled, not verified: serde_json parses and prints JSON values faithfully (numbers are whatever serde_json::Value holds; precision beyond f64 not modelled); clap parses the flags"],
+            assumptions=FS_ASSUME + ["'preserves every other key and value' is read on JSON values (serde_json without preserve_order sorts keys on write)",
+                                     "effective settings are observed from outside: which project's command appears, where files land, the Generator line of types.ts, verbose output, whether an identical second invocation rewrites"],
+            rule="function-level: random JSON documents (nested objects/arrays, Unicode and escaped strings, i64/u64 extremes, decimals; plugins absent / object / with typegen / non-object; non-object documents) x 6 settings values x existing / missing project path "
+                 "through the real save_to_tauri_config and from_tauri_config; process-level: all 32 subsets of {-p,-o,-v,--verbose,--force} x 7 file blocks (absent, valid, valid+verbose+force, unsupported library, missing project path, partial, empty) "
+                 "(quick: a third of the masks only with the 3 most informative blocks), init x {none,zod,yup,Zod} x 5 plugins values; non-trivial = all; distinct = input",
+            exhaustive={"quick": False, "thorough": True},
+            exhaustive_scope={"thorough": "all flag subsets x all 7 file blocks"},
+        ),
         "C16": dict(
             cases=pcases.cases_c16, theorems="Typegen.Theorems.C16",
             trusted_base=[LEAN_TB, PROC_TB, "tg-extract (syn) re-reads is_generated_file's patterns, the names passed to write_typescript_file, CACHE_FILE_NAME, the dependency-graph names and the write-probe name from the source on every run; the C16 theorems are re-checked against them",
